@@ -47,18 +47,35 @@ for c in range(1, 21):
             caught["checker_errors"] = [l[:200] for l in txt.splitlines() if l.startswith("CHECKER-ERROR")][:2]
             m_ = re.search(r"exit=(\d)", txt.splitlines()[-1]) if txt.strip() else None
             caught["exit"] = int(m_.group(1)) if m_ else None
+        evf = f"/tmp/mut_ev/{sid}/C{c:02d}.json"
+        ded = []
+        if os.path.exists(evf):
+            ev = json.load(open(evf))["coverage"]
+            for u in ev.get("units", []):
+                for k, v in (u.get("not_proved") or {}).items():
+                    if v.get("status") in ("refuted", "cex-ground"):
+                        ded.append(f"{u['unit']}/{k}")
+                if u.get("error"):
+                    ded.append(f"{u['unit']}: engine cannot process the changed code ({u['error'][:60]})")
+            for g in ev.get("other_obligation_groups", []):
+                for it_ in g.get("not_proved", []):
+                    if it_.get("status") in ("refuted", "cex-ground"):
+                        ded.append(it_["name"])
+        caught["deductive_layer"] = ded[:8]
         meta["caught_by"] = caught
         json.dump(meta, open(d + "/meta.json", "w"), indent=1)
         layer = "-"
         if caught.get("exit") == 1:
             layer = ("failed obligation" if caught.get("failed_obligations") else "") + (" + " if caught.get("failed_obligations") and caught.get("with_failing_input") else "") + \
                     ("native witness (failing input)" if caught.get("with_failing_input") else "")
-        rows.append((sid, meta["summary"][:110].replace("|", "/"), caught.get("exit"), layer, ", ".join(caught.get("failed_obligations", [])[:2])[:90]))
+        nat = "yes" if caught.get("with_failing_input") else "no"
+        dl = caught.get("deductive_layer", [])
+        rows.append((sid, meta["summary"][:110].replace("|", "/"), caught.get("exit"), f"{len(dl)}" if dl else "0", nat, "; ".join(dl[:2])[:150]))
 with open(os.path.join(OUT, "MATRIX.md"), "w") as f:
     f.write("# Seeded changes and the checks that catch them\n\nEach change was produced by an independent sub-agent that saw only the property text and a scratch worktree, "
             "confirmed on a scratch copy of the current tree (demo passes before / fails after, the 82 baseline tests unchanged), and run through "
             "`./vf check <property>` with VF_REPO pointing at the scratch copy.  exit 1 = violation reported.\n\n"
-            "| id | change | exit | caught by | first failed obligations |\n|---|---|---|---|---|\n")
+            "| id | change | exit | failed obligations (deductive layer) | concrete failing input (bounded oracle) | first failed obligations |\n|---|---|---|---|---|---|\n")
     for r in rows:
         f.write("| " + " | ".join(str(x) for x in r) + " |\n")
 print(len(rows), "seeded changes assembled")
